@@ -446,7 +446,7 @@ func GenSched(r *sim.Rand, tier string) sim.Script {
 			}
 		}
 	}
-	s.Strategy = []string{"rw", "rw", "pct", "rub"}[r.Intn(4)]
+	s.Strategy = []string{"rw", "rw", "pct", "rub", "stall"}[r.Intn(5)]
 	s.SchedSeed = r.U64()
 	return s
 }
